@@ -61,9 +61,10 @@ class MapperSession(B.RecordingSession):
 
 class Env(object):
     """A MapperSession registered with cqlengine under a private connection name."""
-    CONN = "verif_mapper"
+    _serial = itertools.count(1)
 
     def __init__(self, protocol_version=4):
+        self.CONN = "verif_mapper_%d" % next(Env._serial)       # one connection per environment: several may be alive
         repo_import("cassandra.cluster")            # installs the reactor shim cassandra.cluster needs to be importable
         self.connection = repo_import("cassandra.cqlengine.connection")
         self.columns = repo_import("cassandra.cqlengine.columns")
